@@ -1068,15 +1068,56 @@ def table_writes(fnode, field):
     dictionary held in attribute `field` of any receiver, or re-binds that attribute; also through a local
     alias (`t = x.field; t[k] = v`, `t.pop(k)`) and through a method value handed on (`partial(x.field.pop, k)`)."""
     aliases = set()
-    for n in ast.walk(fnode):
-        tv = []
-        if isinstance(n, ast.Assign):
-            tv = [(t, n.value) for t in n.targets]
-        elif isinstance(n, ast.NamedExpr):
-            tv = [(n.target, n.value)]
-        for t, v in tv:
-            if isinstance(t, ast.Name) and isinstance(v, ast.Attribute) and v.attr == field:
-                aliases.add(t.id)
+
+    def may_be_tab(v):
+        # may-alias (over-approximation, the sound direction for a writer scan): the attribute itself, either arm
+        # of a conditional expression, any operand of `a or b` / `a and b`, a walrus, or a name that is an alias
+        if isinstance(v, ast.Attribute):
+            return v.attr == field
+        if isinstance(v, ast.Name):
+            return v.id in aliases
+        if isinstance(v, ast.IfExp):
+            return may_be_tab(v.body) or may_be_tab(v.orelse)
+        if isinstance(v, ast.BoolOp):
+            return any(may_be_tab(x) for x in v.values)
+        if isinstance(v, ast.NamedExpr):
+            return may_be_tab(v.value)
+        return False
+
+    def elements(it):
+        # the elements a `for` / comprehension iterates over when the iterable is a literal collection
+        # (`for t in (x.a, x.field):`), also wrapped in enumerate/reversed/list/tuple/iter
+        while isinstance(it, ast.Call) and isinstance(it.func, ast.Name) and it.func.id in ("enumerate", "reversed", "list", "tuple", "iter", "sorted") and it.args:
+            it = it.args[0]
+        if isinstance(it, (ast.Tuple, ast.List, ast.Set)):
+            return [x.value if isinstance(x, ast.Starred) else x for x in it.elts]
+        return []
+
+    def loop_names(t):
+        return [x.id for x in ast.walk(t) if isinstance(x, ast.Name)]
+
+    for _round in range(3):  # aliases of aliases
+        before = len(aliases)
+        for n in ast.walk(fnode):
+            tv = []
+            if isinstance(n, ast.Assign):
+                tv = [(t, n.value) for t in n.targets]
+                for t in n.targets:
+                    # a, b = x.field, y
+                    if isinstance(t, (ast.Tuple, ast.List)) and isinstance(n.value, (ast.Tuple, ast.List)) and len(t.elts) == len(n.value.elts):
+                        tv += list(zip(t.elts, n.value.elts))
+            elif isinstance(n, ast.AnnAssign) and n.value is not None:
+                tv = [(n.target, n.value)]
+            elif isinstance(n, ast.NamedExpr):
+                tv = [(n.target, n.value)]
+            elif isinstance(n, (ast.For, ast.AsyncFor, ast.comprehension)):
+                if any(may_be_tab(x) for x in elements(n.iter)):
+                    aliases.update(loop_names(n.target))
+            for t, v in tv:
+                if isinstance(t, ast.Name) and may_be_tab(v):
+                    aliases.add(t.id)
+        if len(aliases) == before:
+            break
 
     def is_tab(e):
         return (isinstance(e, ast.Attribute) and e.attr == field) or (isinstance(e, ast.Name) and e.id in aliases)
